@@ -71,6 +71,9 @@ class Interp:
         self.exc_ids = {}     # id(instance) -> eid
         self.handles = {}     # borrowed-resource handles by name
         self.values = {}      # return values seen
+        self._serials = {}    # id(obj) -> (serial, obj)   (keeps objects alive: ids stay unique)
+        self.fault_log = []   # (k, target, seq_at_injection, time, status_before) of injected cancels
+        self.samples = []     # per activation boundary: {task: (status, done)} (if sampling is on)
         o = prog.get('objs', {})
         self.flags = [Flag() for _ in range(o.get('flags', 0))]
         self.tracked = [Tracked(v) for v in o.get('tracked', [])]
@@ -95,6 +98,14 @@ class Interp:
         self.log.append((self.seq, act, idx, kind, now, payload))
         return self.seq
 
+    def serial(self, obj):
+        """Small stable number per distinct object (identity without addresses)."""
+        ent = self._serials.get(id(obj))
+        if ent is None or ent[1] is not obj:
+            ent = (len(self._serials) + 1, obj)
+            self._serials[id(obj)] = ent
+        return ent[0]
+
     def describe(self, exc):
         """Address-free description of an exception object (identity-aware)."""
         if exc is None:
@@ -109,7 +120,7 @@ class Interp:
             for n, t in self.tasks.items():
                 if t is exc.subject:
                     subj = n
-            return ('cancelled', subj, tuple(exc.args))
+            return ('cancelled', subj, tuple(exc.args), self.serial(exc))
         if isinstance(exc, VolatileTaskClosed):
             return ('volclosed',)
         if isinstance(exc, TaskClosed):
@@ -315,6 +326,8 @@ class Interp:
             raise self.new_exc(st['eid'], st.get('cls', 'E'))
         elif op == 'cancel':
             t = self._task(st['ref'])
+            before = t.status.name
+            ev(name, idx, 'cancel_call', (st['ref'], before, tuple(st.get('token', ()))))
             t.cancel(*st.get('token', ()))
             ev(name, idx, 'ok')
         elif op == 'await_task':
@@ -524,24 +537,49 @@ def _unraisable(u):
     NOISE[0] += 1
 
 
-def execute(prog, probe=None, wall=60):
+def execute(prog, probe=None, wall=60, faults=(), sample=False):
     """Run a program on the real usim.  Returns (interp, outcome, exc, probe).
 
+    faults: [{'k': activation boundary, 'target': task name, 'token': [...]}]: before
+    activation k the harness calls the public, synchronous `task.cancel(*token)` - exactly
+    what the activity that ran in activation k-1 could have done as its last action.
+    sample: record (status, done) of every known task at every boundary.
     `interp.end_seq` is the last log entry written while the simulation ran;
     later entries stem from closing abandoned coroutines and are not observations.
     """
     import sys
     import warnings
-    from .probe import run_probed
+    from .probe import run_probed, Probe
     sys.unraisablehook = _unraisable      # GC-time noise of abandoned coroutines: counted only
     warnings.simplefilter('ignore')
     it = Interp(prog)
     roots = it.roots()
     till = prog.get('till')
+    probe = probe or Probe()
+    if faults or sample:
+        by_k = {}
+        for f in faults:
+            by_k.setdefault(f['k'], []).append(f)
+
+        def before(k, loop, it=it, by_k=by_k):
+            if sample:
+                it.samples.append((k, loop.time, it.seq,
+                                   {n: (t.status.name, bool(t.done)) for n, t in it.tasks.items()}))
+            for f in by_k.get(k, ()):
+                t = it.tasks.get(f['target'])
+                if t is None:
+                    it.fault_log.append((k, f['target'], it.seq, loop.time, None, tuple(f.get('token', ()))))
+                    continue
+                it.fault_log.append((k, f['target'], it.seq, loop.time, t.status.name,
+                                     tuple(f.get('token', ()))))
+                t.cancel(*f.get('token', ()))
+        probe.before = before
     outcome, exc, p = run_probed(roots, start=num(prog.get('start', 0)),
                                  till=None if till is None else num(till),
                                  probe=probe, wall=wall)
     it.end_seq = it.seq
+    if sample:
+        it.samples.append((p.k, None, it.seq, {n: (t.status.name, bool(t.done)) for n, t in it.tasks.items()}))
     for r in roots:
         try:
             r.close()
